@@ -213,7 +213,17 @@ def euler_riemann(ctx, rng, idx):
         # 0.69, 0.22, 0.20) while a standing expansion shock keeps the same jump on every mesh
         ctx.true("rarefaction-resolved", nz[-1] <= 0.7 * nz[-3], "riemann/%s/%s/jump-inside-a-rarefaction-fan-does-not-shrink-under-refinement" % (flux, "first-order" if rname == "extrapol1" else "muscl"),
                  {"largest neighbour jump inside the fans / density variation of the fan, per level": jumps, "transonic": transonic}, cls=cls)
-    ctx.true("monotone", np.all(ratios < 1.0), "riemann/%s/%s/error-not-decreasing-under-refinement" % (flux, "first-order" if rname == "extrapol1" else "muscl"), {"errors": errs, "ratios": ratios}, cls=cls)
+    mono = bool(np.all(ratios < 1.0))
+    if not mono and np.all(np.isfinite(errs)) and np.all(ratios[1:] < 1.0) and ratios[0] < 1.1:
+        # only the COARSEST pair (50 -> 100 cells on [-1, 1]) fails, by a few per cent: the starting mesh is the monitor's choice, not part
+        # of the property ("decreases under refinement"), and 50 cells can be pre-asymptotic for a compressive limiter on a strong
+        # transonic fan (thorough-tier witness: superbee + rk2_heun, ratios 1.02, 0.32, 0.53).  The sequence is continued by one more
+        # doubling and judged from the second level on
+        e800, _ = _riemann_sequence(WL, WR, gam, flux, rname, iname, (800,))
+        mono = bool(np.isfinite(e800[0]) and e800[0] < errs[-1])
+        ctx.info["riemann_sequences_judged_from_100_cells_on"] = ctx.info.get("riemann_sequences_judged_from_100_cells_on", 0) + 1
+        errs = np.append(errs, e800[0]); ratios = errs[1:] / errs[:-1]
+    ctx.true("monotone", mono, "riemann/%s/%s/error-not-decreasing-under-refinement" % (flux, "first-order" if rname == "extrapol1" else "muscl"), {"errors": errs, "ratios": ratios}, cls=cls)
     ctx.true("overall", errs[-1] / errs[0] <= 0.7, "riemann/%s/%s/no-overall-convergence" % (flux, "first-order" if rname == "extrapol1" else "muscl"), {"errors": errs}, cls=cls)
     d = ctx.info.setdefault("riemann_ratio_range", [9.0, -9.0])
     ctx.info["riemann_ratio_range"] = [min(d[0], float(np.min(ratios))), max(d[1], float(np.max(ratios)))]
